@@ -3483,14 +3483,20 @@ static  void jdf_generate_deps_key_functions(const jdf_t *jdf, const jdf_functio
         string_arena_free(sa1);
 
         for(vl = f->locals; vl != NULL; vl = vl->next) {
-            if( local_is_parameter(f, vl) != NULL ) {
+            if( (local_is_parameter(f, vl) != NULL) &&
+                ((vl->expr->op == JDF_RANGE) || (NULL != vl->expr->local_variables)) ) {
                 coutput("  int %s = (__parsec_key) %% __parsec_tp->%s_%s_range + __parsec_tp->%s_%s_min;\n",
                             vl->name, f->fname, vl->name, f->fname, vl->name);
-                string_arena_add_string(sa_format, "%s%%d", first_param?"":", ");
-                string_arena_add_string(sa_params, "%s%s", first_param?"":", ", vl->name);
-                first_param = 0;
                 coutput("  __parsec_key = __parsec_key / __parsec_tp->%s_%s_range;\n",
                         f->fname, vl->name);
+            } else if( local_is_parameter(f, vl) != NULL ) {
+                /* A parameter defined by an expression of the previous locals: make_key gave it a
+                 * range of 1, so it cannot be extracted from the key. Recompute it, and remove
+                 * what it added to the key. */
+                coutput("  int %s = %s;\n"
+                        "  __parsec_key -= (uint64_t)%s - __parsec_tp->%s_%s_min;\n",
+                        vl->name, dump_expr((void**)vl->expr, &info),
+                        vl->name, f->fname, vl->name);
             } else {
                 /* IDs should depend only on the parameters of the
                  * function. However, we might need the other definitions because
@@ -3506,6 +3512,13 @@ static  void jdf_generate_deps_key_functions(const jdf_t *jdf, const jdf_functio
         }
         if(need_assignment)
             coutput("  (void)"JDF2C_NAMESPACE"_assignments;\n");
+        /* The key is decoded in the order of the definitions, but the task is named by
+         * its parameters in the order of their declaration (as parsec_task_snprintf does) */
+        for(const jdf_param_list_t *pl = f->parameters; pl != NULL; pl = pl->next) {
+            string_arena_add_string(sa_format, "%s%%d", first_param?"":", ");
+            string_arena_add_string(sa_params, "%s%s", first_param?"":", ", pl->name);
+            first_param = 0;
+        }
         coutput("  snprintf(buffer, buffer_size, \"%s(%s)\", %s);\n"
                 "  return buffer;\n"
                 "}\n"
